@@ -1396,7 +1396,7 @@ def check_c08(pid, tier, build, props):
             problems.append("front-end (expressions) correspondence harness: %r" % (meta,))
         elif meta and "skipped" in meta:
             fx["skipped"][meta["skipped"]] = fx["skipped"].get(meta["skipped"], 0) + 1
-        elif (meta and "model_mismatch" in meta) or r != [1, 1, 1]:
+        elif (meta and "model_mismatch" in meta) or r is None or r[:3] != [1, 1, 1]:
             fx["mismatch"] += 1
             if fx["mismatch"] <= 2:
                 violations.append({"source": item, "witness": None,
@@ -1405,6 +1405,9 @@ def check_c08(pid, tier, build, props):
         else:
             fx["agree"] += 1
             fx["with_and_or"] += 1 if meta.get("boolops") else 0
+            fx["in_theorem_fragment"] = fx.get("in_theorem_fragment", 0) + (1 if len(r) > 3 and r[3] == 1 else 0)
+            fx["with_and_or_in_theorem_fragment"] = fx.get("with_and_or_in_theorem_fragment", 0) + (
+                1 if meta.get("boolops") and len(r) > 3 and r[3] == 1 else 0)
     fx_ok = fx["agree"] > 0 and fx["mismatch"] == 0
     coverage = {
         "obligations": nth + 3,
@@ -1445,7 +1448,10 @@ def check_c08(pid, tier, build, props):
                        "on programs with and/or in every position, front_end_model_with_expressions_correspondence); "
                        "on that model the full statement is FALSE and is refuted by kernel-evaluated witnesses "
                        "(C08_nested_boolop_refuted, C08_expr_order_refuted) - replayed on the implementation these are "
-                       "the known findings K2 and K-expr. NOT proved: the positive statement for and/or operands, for-desugaring vs Python's for, divergence - "
+                       "the known findings K2 and K-expr; and where the transformer keeps the order of evaluation the positive "
+                       "statement IS proved for every program (C08_graph_means_source_with_and_or: flat and/or chains of "
+                       "any length in tests and values, and/or as leading operands; fragment predicate good_stmts, "
+                       "evaluated per program in the run: in_theorem_fragment). NOT proved: for-desugaring vs Python's for, divergence - "
                        "decided by path-exhaustive differential execution against CPython (exploration). Known findings (test suite pins the behaviour): nested and/or "
                        "operands are hoisted eagerly; a for target is initialised to None.",
     }
